@@ -35,7 +35,11 @@ EXTENDS StreamSelect
 XP == << << [axis |-> "child", test |-> "a"] >>,
          << [axis |-> "child", test |-> "b"] >>,
          << [axis |-> "child", test |-> "*"] >>,
-         << [axis |-> "child", test |-> "a"], [axis |-> "child", test |-> "b"] >> >>
+         << [axis |-> "child", test |-> "a"], [axis |-> "child", test |-> "b"] >>,
+         \* 5..7: paths that leave the record (Stream.tla): `..`, `../a`, `../b`
+         << [axis |-> "parent", test |-> "*"] >>,
+         << [axis |-> "parent", test |-> "*"], [axis |-> "child", test |-> "a"] >>,
+         << [axis |-> "parent", test |-> "*"], [axis |-> "child", test |-> "b"] >> >>
 
 NilV == <<"nil">>
 FailV == <<"FAIL">>
